@@ -29,6 +29,19 @@ def _witness(pid, record):
         return {"found": False, "error": "%s: %s" % (type(e).__name__, e)}
 
 
+def _known_kinds(pid):
+    import re
+    out = set()
+    p = os.path.join(VERIF, "known_findings.txt")
+    if os.path.exists(p):
+        for line in open(p):
+            if line.startswith("open:") and ("property=%s " % pid) in line:
+                m = re.search(r"search_kind=(\S+)", line)
+                if m:
+                    out.add(m.group(1))
+    return out
+
+
 def make_replay(pid, record, unit_results, only_if_found=False, need_prop=None):
     rdir = os.environ.get("VERIF_REPLAY_DIR") or os.path.join(VERIF, "replays")
     os.makedirs(rdir, exist_ok=True)
@@ -36,6 +49,9 @@ def make_replay(pid, record, unit_results, only_if_found=False, need_prop=None):
     h = hashlib.sha1(key.encode()).hexdigest()[:10]
     path = os.path.join(rdir, "%s-%s.json" % (pid, h))
     w = _witness(pid, record)
+    if w and w.get("found") and w.get("kind") in _known_kinds(pid):
+        # the search only reproduced a listed known finding: that is not a witness for THIS obligation
+        w = {"found": False, "note": "the bounded search only reproduced the open known finding `%s`" % w.get("kind")}
     if need_prop and w and w.get("found"):
         props = [x.strip() for x in str(w.get("props", "")).split(",") if x.strip()]
         if need_prop not in props:
